@@ -618,32 +618,38 @@ impl<'a> Drv<'a> {
         let run_q: BTreeSet<String> = self.ev.query_jobs_running().into_iter().collect();
         let cleanup: BTreeSet<String> = self.ev.query_ready_for_cleanup().into_iter().collect();
         pypipegraph2::verif::take_transitions();
-        let mut tries: Vec<(&'static str, String, Result<Result<(), PPGEvaluatorError>, String>)> = vec![];
+        let mut tries: Vec<(&'static str, String, String, Result<Result<(), PPGEvaluatorError>, String>)> = vec![];
         for n in &g.nodes {
             let j = &n.id;
             let ev = &mut self.ev;
             if !ready.contains(j) {
-                tries.push(("start", j.clone(), guarded(|| ev.event_now_running(j))));
+                tries.push(("start", j.clone(), String::new(), guarded(|| ev.event_now_running(j))));
             }
             if !run_q.contains(j) {
-                tries.push(("success", j.clone(), guarded(|| ev.event_job_finished_success(j, "X=1".to_string()))));
-                tries.push(("failure", j.clone(), guarded(|| ev.event_job_finished_failure(j))));
+                tries.push(("success", j.clone(), "X=1".to_string(), guarded(|| ev.event_job_finished_success(j, "X=1".to_string()))));
+                // the same illegal report carrying exactly the output the engine has on record for the job
+                if let JobOutputResult::Done(cur) = ev.get_job_output(j) {
+                    let c2 = cur.clone();
+                    tries.push(("success-same", j.clone(), cur, guarded(|| ev.event_job_finished_success(j, c2))));
+                }
+                tries.push(("failure", j.clone(), String::new(), guarded(|| ev.event_job_finished_failure(j))));
             }
             if !cleanup.contains(j) {
-                tries.push(("cleanup", j.clone(), guarded(|| ev.event_job_cleanup_done(j))));
+                tries.push(("cleanup", j.clone(), String::new(), guarded(|| ev.event_job_cleanup_done(j))));
             }
         }
         if phase != "before-startup" {
             let ev = &mut self.ev;
-            tries.push(("startup", String::new(), guarded(|| ev.event_startup())));
+            tries.push(("startup", String::new(), String::new(), guarded(|| ev.event_startup())));
         }
         if self.plan.trace {
             let disk: Vec<String> = self.world.borrow().disk.keys().cloned().collect();
-            let t: Vec<String> = tries.iter().map(|(w, j, _)| format!("[{},{}]", crate::acc::jstr(w), crate::acc::jstr(j))).collect();
+            let t: Vec<String> = tries.iter().map(|(w, j, pl, _)| format!("[{},{},{}]", crate::acc::jstr(w), crate::acc::jstr(j), crate::acc::jstr(pl))).collect();
             let post = self.post_state_json();
             self.rep.trace.push(format!("{{\"op\":\"misuse\",\"tries\":{},\"disk\":{},{}}}", crate::acc::jarr(&t), crate::acc::jarr(&disk.iter().map(|x| crate::acc::jstr(x)).collect::<Vec<_>>()), post));
         }
-        for (what, j, r) in tries {
+        pypipegraph2::verif::take_signal_count();
+        for (what, j, _payload, r) in tries {
             self.rep.misuse_calls += 1;
             let st = states.get(&j).cloned().unwrap_or_else(|| phase.to_string());
             self.rep.misuse_pairs.insert((st.clone(), what));
@@ -817,7 +823,13 @@ impl<'a> Drv<'a> {
 
     fn do_cleanup(&mut self, j: &str) {
         let jj = j.to_string();
-        if self.call(format!("cleanup {}", j), |ev| ev.event_job_cleanup_done(&jj)).is_ok() {
+        let r = self.call(format!("cleanup {}", j), |ev| ev.event_job_cleanup_done(&jj));
+        if let Err(e) = &r {
+            if e.starts_with("APIError") {
+                viol!(self, "C17", "cleanup-set-entry-not-acknowledgeable", self.state_of(j), "{} is reported ready for cleanup, but acknowledging it is refused ({}): the reported set disagrees with the engine's own state", j, e);
+            }
+        }
+        if r.is_ok() {
             self.rep.cleanup_acked.insert(jj);
             let mut w = self.world.borrow_mut();
             for o in &self.g.node(j).unwrap().outs {
@@ -866,6 +878,13 @@ impl<'a> Drv<'a> {
             kinds.dedup();
             let sig = format!("fin={} ready={:?} running={}", fin, kinds, q2.len());
             viol!(self, "C10", "not-quiescent-after-abort", sig, "after abort: finished={} ready={:?} running={:?}", fin, r2, q2);
+            if fin {
+                viol!(self, "C05", "finished-but-active", "after-abort", "the aborted evaluation reports finished but ready {:?} running {:?}", r2, q2);
+            }
+        }
+        if self.plan.misuse != Misuse::Off {
+            // every illegal call is rejected without side effects after an abort as well
+            self.misuse_round("after-abort");
         }
         {
             let snap = self.ev.verif_snapshot();
